@@ -54,6 +54,9 @@ def run_kani(harnesses):
     return res
 
 
+STD_ONLY_PROPS = ('C16',)
+
+
 def load_known():
     res = []
     if not os.path.exists(KNOWN):
@@ -104,6 +107,8 @@ def cmd_check(args):
     rewrites = []
     for u in cone:
         for cfg in u.configs:
+            if prop in STD_ONLY_PROPS and cfg != 'std':
+                continue   # the property explicitly excludes the alloc-only / no_std configurations
             for vac in (False, True):
                 try:
                     path, text, log = M.gen_unit(units, u.name, cfg, outdir, vac)
